@@ -1,0 +1,16 @@
+//go:build verif
+// +build verif
+
+package porcupine
+
+// Hooks for the verification harness in /verif. Compiled only with -tags verif.
+
+// VerifCall builds a call event of the bundled register model: op 0 read, 1 write, 2 cas.
+func VerifCall(id uint, op uint8, arg1 int, arg2 int) Event {
+	return Event{Kind: CallEvent, Value: etcdInput{op: op, arg1: arg1, arg2: arg2}, Id: id}
+}
+
+// VerifReturn builds a return event of the bundled register model.
+func VerifReturn(id uint, ok bool, exists bool, value int, unknown bool) Event {
+	return Event{Kind: ReturnEvent, Value: etcdOutput{ok: ok, exists: exists, value: value, unknown: unknown}, Id: id}
+}
